@@ -90,3 +90,15 @@ Example spec_example :
   let o := run example_s in
   spec example_s (mkO (o_err o) (mkTI 0 0 false false 0 [] :: tl (o_tests o)) (o_stray o) (o_empty o) (o_noleaks o) (o_many o) (o_total o) (o_entries o)) = false.
 Proof. vm_compute. split; reflexivity. Qed.
+
+(* the hypotheses of the named theorems are met by the example program *)
+Example hypotheses_example :
+  (* a leak of test 0 that a later test (1) must not be charged with *)
+  In (4, 8) (leaks_of example_s 0) /\ (0 < 1 < length (s_tests example_s))%nat /\
+  (* test 2 failed on its own and still holds a block *)
+  own_failures (executed (nth 2 (s_tests example_s) no_test)) <> 0 /\ leaks_of example_s 2 <> [] /\
+  (* test 1 releases block 2, which it did not allocate *)
+  existsb (allocates 2) [] = false /\
+  (* no report of the example is cut short *)
+  Forall (fun i => ti_many i = false) (o_tests (run example_s)) /\ o_many (run example_s) = false.
+Proof. vm_compute. repeat split; auto; try discriminate; try lia. repeat constructor. Qed.
